@@ -5,10 +5,12 @@
 //!   okv list
 //! internal: okv worker|describe|only ...
 
+mod bfs;
 mod checks;
 mod fw;
 mod oka;
 mod q;
+mod refledger;
 
 use std::collections::BTreeSet;
 use std::path::PathBuf;
